@@ -354,8 +354,12 @@ func (l *Lexer) newToken(tokType token.TokenType, literal string) token.Token {
 	// We need to set the end column and line to the values of the previous
 	// character because we already read the last character and incremented
 	// the column index.
-	// For EOF we don't need to decrement the column index.
-	if tokType != token.EOF {
+	// For EOF we don't need to decrement the column index. The same goes
+	// for a token that has not read any character, like an illegal
+	// character, which is reported without being consumed.
+	nothingRead := l.col == l.startCol && l.line == l.startLine
+
+	if tokType != token.EOF && !nothingRead {
 		endCol = l.prevCol
 		endLine = l.prevLine
 	}
